@@ -13,7 +13,7 @@
      cmp    six operators x every pair of values incl. NaN, infinities, -0: = IEEE relation  (CmpInv)
      truth  if(x) / !x / (_Bool)x = "compares unequal to 0"                                 (CmpInv)
      arith  + - * / x every pair: the instruction sequence computes x op y (operand order,
-            operand format), unary minus                                                     (ArithInv)
+            operand format), unary minus, the value of x++ / x--                             (ArithInv)
      typing get_common_type / default argument promotion = 6.3.1.8 / 6.5.2.2p6                (TypeInv)
      round  Level A's own correctness, against an independent characterisation: the result of
             + * / and of integer->floating is THE representable value nearest to the exact
@@ -54,10 +54,10 @@ Init ==
      \/ "f2f" \in Kinds /\ \E aa \in FTypes, bb \in FTypes : Case("f2f", aa, bb, None)
      \/ "cmp" \in Kinds /\ \E aa \in TypesC, oo \in RelOps : Case("cmp", aa, None, oo)
      \/ "truth" \in Kinds /\ \E aa \in FTypes, oo \in {"if", "not", "bool"} : Case("truth", aa, None, oo)
-     \/ "arith" \in Kinds /\ \E aa \in TypesC, oo \in ArOps \cup {"neg"} : Case("arith", aa, None, oo)
+     \/ "arith" \in Kinds /\ \E aa \in TypesC, oo \in ArOps \cup {"neg", "postinc", "postdec"} : Case("arith", aa, None, oo)
      \/ "typing" \in Kinds /\ \E aa \in ATypes, bb \in ATypes : Case("typing", aa, bb, None)
      \/ "round" \in Kinds /\ \E oo \in {"add", "mul", "div", "i2f", "codec"} : Case("round", "float", None, oo)
-Binary == (kind \in {"cmp", "arith", "round"}) /\ op \notin {"neg", "i2f", "codec"}
+Binary == (kind \in {"cmp", "arith", "round"}) /\ op \notin {"neg", "postinc", "postdec", "i2f", "codec"}
 XDom == CASE kind = "i2f" -> IntVals(a)
           [] kind = "typing" -> {None}
           [] kind = "round" -> (CASE op = "i2f" -> IntVals("long") \cup IntVals("ulong")
@@ -84,7 +84,10 @@ CmpInv0 ==
                          [] op = "not" -> NotI(x) = ~Truth(x)
                          [] op = "bool" -> ToBool(x) = (IF Truth(x) THEN 1 ELSE 0)
 ArithInv0 ==
-  kind = "arith" => IF op = "neg" THEN NegI(a, x) = Neg(x) ELSE ArithI(a, op, x, y) = Arith(Fmt(a), op, x, y)
+  kind = "arith" => CASE op = "neg" -> NegI(a, x) = Neg(x)
+                      [] op = "postinc" -> PostI(a, 1, x) = x          \* 6.5.2.4p2: the value of the operand
+                      [] op = "postdec" -> PostI(a, -1, x) = x
+                      [] OTHER -> ArithI(a, op, x, y) = Arith(Fmt(a), op, x, y)
 TypeInv0 ==
   kind = "typing" => /\ (IsF(a) \/ IsF(b)) => CommonI(a, b) = CommonType(a, b)
                      /\ ArgPromoteI(a) = ArgPromote(a)
